@@ -4,8 +4,19 @@
   case analysis over the WHOLE table in the kernel.
 -/
 import GoHeader.P2P.Subscriber
+import GoHeader.P2P.Lifecycle
 namespace GoHeader.C11
 open GoHeader.P2P
+
+/-- the gate is in place whenever messages can flow: after ANY sequence of Start / Stop / Subscribe / Cancel calls a
+    joined topic has `verifyMessage` registered as its validator (`P2P.Lifecycle`; with the Stop of the F38 repair) -/
+theorem c11_gate_while_joined (ops : List Lifecycle.Op) :
+    Lifecycle.Inv (Lifecycle.run true {} ops) :=
+  Lifecycle.run_inv ops {} (by intro h; cases h)
+
+/-- before the repair: Start, Subscribe, Stop (which fails) left the topic joined without its validator -/
+theorem c11_gate_lost_before_repair : ¬ Lifecycle.Inv (Lifecycle.run false {} [.start, .subscribe, .stop]) :=
+  Lifecycle.old_counterexample
 
 /-- a message is accepted (reaches Subscriptions and is relayed) exactly when it decodes, passes
     Validate and the registered verifier returns nil -/
